@@ -1,14 +1,16 @@
 /-! # The compiler's exit status (main.c, axlcomp.c) — hand model
 
 ```
-main:           return compCmd(argc, argv);
+main:           status = compCmd(argc, argv);
+                return (status < 0 || status > 255) ? 255 : status;      (since 20d6e38)
 compCmd:        return compFilesLoop(argc, argv);
 compFilesLoop:  totErrors = 0; for each file { nErrors = compSourceFile(..); totErrors += nErrors; }
                 ... return totErrors;
 compSourceFile: msgCount = comsgErrorCount(); ... return msgCount;
 ```
 The value returned by `main` is handed to `exit`; the parent sees its low 8 bits
-(`WEXITSTATUS`).  There is no clamping anywhere on this path.
+(`WEXITSTATUS`).  `main` saturates the count at 255; before 20d6e38 it returned it unchanged
+(`mainClampOld`), so 256 errors looked like success.
 (Fatal errors and the fault handler leave through `exitFailure()` = `exit(EXIT_FAILURE)`;
 that path is not the subject of this model.) -/
 namespace AldorVerif.Exit
@@ -16,10 +18,12 @@ namespace AldorVerif.Exit
 /-- `compFilesLoop`: the sum of the per-file error counts -/
 def compFilesLoop (fileErrors : List Nat) : Nat := fileErrors.foldl (· + ·) 0
 
-/-- what `main` does to the total before returning it.  Today: nothing.
-    SWITCH: after a repair such as `return n > 255 ? 255 : n;` (or `n ? EXIT_FAILURE : 0`)
-    change this definition accordingly (`min n 255`, resp. `if n = 0 then 0 else 1`). -/
-def mainClamp (n : Nat) : Nat := n
+/-- what `main` does to the total before returning it: `(status < 0 || status > 255) ? 255 : status`
+    (the count is never negative) -/
+def mainClamp (n : Nat) : Nat := min n 255
+
+/-- the text before 20d6e38: `return compCmd(argc, argv);` -/
+def mainClampOld (n : Nat) : Nat := n
 
 /-- the status the parent process observes for `exit(r)` -/
 def osStatus (r : Nat) : Nat := r % 256
